@@ -202,6 +202,15 @@ fn order<T: HLabel>(ctx: &mut Ctx, case: &StaticCase, built: &Built<T>, oracle: 
                     pool.push(Query { kind: k, args: vec![a], cert: false });
                     pool.push(Query { kind: k, args: vec![a], cert: true });
                 }
+                // pairs and triples too: what an object learnt from single-argument queries must not be
+                // combined into an answer for a list
+                if case.abs.n >= 2 && focus.is_none() {
+                    for _ in 0..4 {
+                        let l: Vec<usize> = (0..2 + rng.below(2)).map(|_| rng.below(case.abs.n.min(6))).collect();
+                        pool.push(Query { kind: k, args: l.clone(), cert: false });
+                        pool.push(Query { kind: k, args: l, cert: true });
+                    }
+                }
             }
         }
         if pool.is_empty() {
